@@ -129,8 +129,8 @@ pub fn gen_case(seed: u64, k: u64, profile: Profile) -> Case {
                 set_money(&mut rng, &mut row, profile);
                 if profile == Profile::Sfl && !reg && rng.gen_bool(0.12) {
                     // a manual SFL; the value is a guess, the spec decides what must happen
-                    let v = dec(rng.gen_range(0..20_000), 2);
-                    row.sfl = format!("-{}{}", v.normalize(), if rng.gen_bool(0.3) { "!" } else { "" });
+                    let v = if rng.gen_bool(0.35) { Decimal::ZERO } else { dec(rng.gen_range(0..20_000), 2) };
+                    row.sfl = format!("{}{}{}", if v.is_zero() { "" } else { "-" }, v.normalize(), if rng.gen_bool(0.3) { "!" } else { "" });
                 }
                 if q <= held {
                     hold.sh.insert(afid.clone(), held - q);
@@ -206,11 +206,23 @@ pub fn gen_case(seed: u64, k: u64, profile: Profile) -> Case {
     // global splits must not sit next to affiliate-specific splits (acb refuses such inputs before
     // bookkeeping); drop the affiliate-specific ones that do
     let merged = drop_adjacent_specific_splits(merged);
-    let files = if rng.gen_bool(0.2) && merged.len() > 2 {
-        let cut = rng.gen_range(1..merged.len());
-        vec![merged[..cut].to_vec(), merged[cut..].to_vec()]
-    } else {
-        vec![merged]
+    let files = match rng.gen_range(0..10) {
+        0..=1 if merged.len() > 2 => {
+            let cut = rng.gen_range(1..merged.len());
+            vec![merged[..cut].to_vec(), merged[cut..].to_vec()]
+        }
+        2..=4 if merged.len() > 2 => {
+            // rows dealt out over several files (e.g. one export per account): dates interleave
+            // across files; the read index is the position in the concatenation
+            let nf = rng.gen_range(2..=3);
+            let mut fs: Vec<Vec<Row>> = vec![Vec::new(); nf];
+            for r in merged {
+                let k = rng.gen_range(0..nf);
+                fs[k].push(r);
+            }
+            fs.into_iter().filter(|f| !f.is_empty()).collect()
+        }
+        _ => vec![merged],
     };
     Case { id: format!("{}-{}-{}", profile_name(profile), seed, k), files, opening, tags: json!({"profile": profile_name(profile)}) }
 }
